@@ -271,6 +271,14 @@ func (mbs *metadataPartStorage) AppendObject(ctx context.Context, bucketName sto
 			Size:         totalSize,
 			Parts:        allParts,
 		}
+		if existingObject != nil {
+			// An append that creates a new version is stored with PutObject
+			// semantics, which replace metadata, tags and storage class with
+			// the values carried by this object; appends preserve them.
+			updatedObject.Metadata = existingObject.Metadata
+			updatedObject.Tags = existingObject.Tags
+			updatedObject.StorageClass = existingObject.StorageClass
+		}
 
 		metaOpts := &metadatastore.AppendObjectOptions{}
 		metadataResult, err := mbs.metadataStore.AppendObject(ctx, tx.SqlTx(), bucketName, updatedObject, metaOpts)
